@@ -25,6 +25,13 @@ func propJanitor(c *Case) {
 	interval := []time.Duration{time.Second, time.Millisecond, time.Minute, time.Hour}[c.Pick("interval", 4)]
 	mult := []float64{3, 0.5, 1, 10, 100}[c.Pick("dmult", 5)]
 	dea := time.Duration(float64(interval)*mult) + time.Duration(c.Int("dns", 0, 2))
+	cfgDea := dea
+
+	// DeleteExpiredAfter left unset means the documented default of 24h (also for UnlimitedTTL caches)
+	if interval >= time.Minute && c.Weighted("DeleteExpiredAfter-default", 4, 1) == 1 {
+		cfgDea, dea = 0, 24*time.Hour
+		c.Class("DeleteExpiredAfter=default")
+	}
 
 	ttlMenu := []time.Duration{
 		time.Nanosecond, interval / 2, interval, 3 * interval, dea, dea + interval, 100 * interval,
@@ -48,7 +55,19 @@ func propJanitor(c *Case) {
 	// eviction limits that are configured but never exceeded must not remove anything
 	var heapLimit, sysLimit, countLimit uint64
 
-	switch c.Weighted("unreached-limit", 4, 1, 1, 1) {
+	var (
+		stats          cache.StatsTracker
+		reportInterval time.Duration
+	)
+
+	switch c.Weighted("unreached-limit", 4, 1, 1, 1, 2) {
+	case 4:
+		// a count limit that is exceeded between cleanup cycles (and seen exceeded by the items-count
+		// reporter of a cache with a stats tracker) but never at a cleanup cycle
+		countLimit = uint64(c.Int("countLimit", 1, 4))
+		stats = newCountTracker()
+		reportInterval = interval / 4
+		c.Class("count-limit-exceeded-only-between-cycles")
 	case 1:
 		heapLimit = 1 << 62
 		c.Class("unreached-heap-limit")
@@ -69,8 +88,9 @@ func propJanitor(c *Case) {
 		t0 := time.Now()
 		be := newCaseBackend(c, kind, cache.Config{
 			TimeToLive: cfgTTL, ExpirationJitter: jit,
-			DeleteExpiredJobInterval: interval, DeleteExpiredAfter: dea,
+			DeleteExpiredJobInterval: interval, DeleteExpiredAfter: cfgDea,
 			HeapInUseSoftLimit: heapLimit, SysMemSoftLimit: sysLimit, CountSoftLimit: countLimit,
+			Stats: stats, ItemsCountReportInterval: reportInterval,
 			EvictFraction: 0.5, // a spurious eviction must be visible with a handful of entries
 		})
 		d := newMapDriver(c, be, cfgTTL, jit)
@@ -181,6 +201,21 @@ func propJanitor(c *Case) {
 
 				if dur <= 0 {
 					dur = 1
+				}
+
+				// no eviction limit may be exceeded when a cleanup cycle runs (deletions of the cycle come first)
+				if stats != nil && dur >= until {
+					for _, k := range baseKeys {
+						if uint64(len(d.ref.m)) <= countLimit {
+							break
+						}
+
+						if _, ok := d.ref.m[string(k)]; ok {
+							d.del(k)
+						}
+					}
+				} else if stats != nil && uint64(len(d.ref.m)) > countLimit {
+					c.Class("count-above-limit-while-reporter-ticks")
 				}
 
 				time.Sleep(dur)
